@@ -361,6 +361,161 @@ pub fn run_shared_memo(name: &str, len: usize, cx: &ShardCtx) -> UnitResult {
 }
 
 // =================================================================================================
+// C11 / C20: errors replayed from the memo table (clones of a stored error, merged into the pending one) must not
+// grow: a labelled().as_context() inside a memoized rule that is visited twice at every nesting level
+// =================================================================================================
+
+fn ctx_memo_grammar<'a>(memo: bool) -> BP<'a, usize> {
+    recursive(|e| {
+        let inner = e.delimited_by(just('('), just(')')).map(|n: usize| n + 1).labelled("group").as_context();
+        let inner: BP<usize> = if memo { inner.memoized().boxed() } else { inner.boxed() };
+        // the rule is tried twice at the same position (a garden path): the second visit is a memo hit
+        inner.clone().then_ignore(just('!')).or(inner).or(just('a').to(0usize))
+    })
+    .boxed()
+}
+
+type CtxObs = Result<(Option<usize>, Vec<String>, usize, bool, Vec<String>), String>;
+
+fn obs_ctx<'a>(p: &BP<'a, usize>, s: &'a str) -> CtxObs {
+    catch_unwind(AssertUnwindSafe(|| {
+        let (o, e) = p.parse(s).into_output_errors();
+        let nctx = e.iter().map(|e| e.contexts().count()).max().unwrap_or(0);
+        let c = p.check(s);
+        let ok = c.has_output();
+        (o, e.iter().map(|e| format!("{e:?}")).collect(), nctx, ok, c.into_errors().iter().map(|e| format!("{e:?}")).collect())
+    }))
+    .map_err(cvh::e1::panic_msg)
+}
+
+pub fn run_ctx_memo(name: &str, len: usize, maxdepth: usize, cx: &ShardCtx) -> UnitResult {
+    let mut r = UnitResult { name: name.to_string(), exhaustive: true, ..Default::default() };
+    let mut ins = strings(&['(', ')', 'a', '!', 'x'], len);
+    // deep points: d openers around a typo / a missing closer / a well-formed core
+    for d in 1..=maxdepth {
+        ins.push("(".repeat(d) + "x" + &")".repeat(d));
+        ins.push("(".repeat(d) + "a" + &")".repeat(d - 1));
+        ins.push("(".repeat(d) + "a" + &")".repeat(d) + "!");
+        ins.push("(".repeat(d) + "a" + &")!".repeat(d));
+    }
+    let (plain, memo) = (ctx_memo_grammar(false), ctx_memo_grammar(true));
+    let mut distinct = HashSet::new();
+    for (i, s) in ins.iter().enumerate() {
+        if i % cx.nshards != cx.shard || cx.skip.contains(&i) {
+            continue;
+        }
+        (cx.progress)(i);
+        r.cases += 1;
+        r.validated += 1;
+        r.states += s.len() as u64 + 1;
+        r.transitions += 2;
+        let (a, b) = (obs_ctx(&plain, s), obs_ctx(&memo, s));
+        let depth = s.chars().take_while(|c| *c == '(').count();
+        match (&a, &b) {
+            (Err(e), _) | (_, Err(e)) => mism(&mut r, "ctxmemo", name, "group grammar".into(), s, format!("panic: {e}")),
+            (Ok(x), Ok(y)) => {
+                *r.counters.entry(if x.0.is_some() { "accepted" } else { "rejected" }.into()).or_default() += 1;
+                distinct.insert((x.0, x.1.clone()));
+                if y.2 > depth + 1 {
+                    mism(&mut r, "ctxmemo", name, "group grammar".into(), s, format!("an error of the memoized grammar carries {} context frames for {} levels of nesting", y.2, depth));
+                } else if x != y {
+                    mism(&mut r, "ctxmemo", name, "group grammar".into(), s, format!("memoized grammar: {:?} / check {:?}; plain grammar: {:?} / check {:?}", (&y.0, &y.1), (y.3, &y.4), (&x.0, &x.1), (x.3, &x.4)));
+                }
+                if r.samples.len() < 3 && depth >= 4 && x.0.is_none() {
+                    r.samples.push(format!("{s:?}: rejected with {} context frame(s) in both forms", x.2));
+                }
+            }
+        }
+    }
+    r.distinct_outcomes = distinct.len() as u64;
+    r.desc = format!("expr = group '!' | group | 'a', group = ('(' expr ')').labelled().as_context() - with group memoized (its second visit at every level is a memo hit replaying a stored error) vs plain: identical outputs and errors (with their context frames) on all {} strings over \"()a!x\" of length <= {} and on nestings up to depth {} around a typo / a missing closer; no error carries more context frames than there are nesting levels + 1", ins.len(), len, maxdepth);
+    r
+}
+
+// =================================================================================================
+// C12 / C13: the recursion handle used through wrappers INSIDE its own definition (handle.boxed(), Rc, Box, a
+// declared handle boxed, two declared parsers referring to each other through boxed handles) - the same
+// language and the same errors as with the plain handle
+// =================================================================================================
+
+pub fn erased_handle_forms<'a>() -> Vec<(&'static str, BP<'a, usize>)> {
+    fn body<'a>(r: impl Parser<'a, &'a str, usize, Ex<'a>> + Clone + 'a) -> impl Parser<'a, &'a str, usize, Ex<'a>> + Clone + 'a {
+        r.clone().delimited_by(just('('), just(')')).map(|n: usize| n + 1).or(just('a').to(0usize)).or(r.delimited_by(just('['), just(']')).map(|n: usize| n + 100))
+    }
+    vec![
+        ("recursive(|h| body(h))", recursive(|h| body(h)).boxed()),
+        ("recursive(|h| body(h.boxed()))", recursive(|h| body(h.boxed())).boxed()),
+        ("recursive(|h| body(Rc::new(h)))", recursive(|h| body(std::rc::Rc::new(h))).boxed()),
+        ("recursive(|h| body(Box::new(h)))", recursive(|h| body(Box::new(h))).boxed()),
+        ("recursive(|h| body(h.clone().boxed().boxed()))", recursive(|h| body(h.clone().boxed().boxed())).boxed()),
+        ("declare; define(body(p.clone().boxed()))", {
+            let mut p = Recursive::declare();
+            p.define(body(p.clone().boxed()));
+            p.boxed()
+        }),
+        ("declare a, b; a = body(b.boxed()); b = a.boxed()", {
+            let mut a = Recursive::declare();
+            let mut b = Recursive::declare();
+            a.define(body(b.clone().boxed()));
+            b.define(a.clone().boxed());
+            a.boxed()
+        }),
+    ]
+}
+
+type ErasedObs = Result<(Option<usize>, Vec<String>, bool, usize), String>;
+fn obs_erased<'a>(p: &BP<'a, usize>, s: &'a str) -> ErasedObs {
+    catch_unwind(AssertUnwindSafe(|| {
+        let (o, e) = p.parse(s).into_output_errors();
+        let c = p.check(s);
+        let (ok, n) = (c.has_output(), c.errors().len());
+        (o, e.iter().map(|e| format!("{e:?}")).collect(), ok, n)
+    }))
+    .map_err(cvh::e1::panic_msg)
+}
+
+pub fn run_erased(name: &str, len: usize, cx: &ShardCtx) -> UnitResult {
+    let mut r = UnitResult { name: name.to_string(), exhaustive: true, ..Default::default() };
+    let ins = strings(&['(', ')', '[', ']', 'a'], len);
+    // building a form may itself panic (a handle that cannot be wrapped while its definition is being built)
+    let forms = match catch_unwind(AssertUnwindSafe(erased_handle_forms)) {
+        Ok(f) => f,
+        Err(e) => {
+            if cx.shard == 0 {
+                r.cases += 1;
+                mism(&mut r, "rec-erased", name, "building the grammars".into(), "", format!("panic while building a grammar whose recursion handle is wrapped inside its definition: {}", cvh::e1::panic_msg(e)));
+            }
+            return r;
+        }
+    };
+    let mut distinct = HashSet::new();
+    for (i, s) in ins.iter().enumerate() {
+        if i % cx.nshards != cx.shard || cx.skip.contains(&i) {
+            continue;
+        }
+        (cx.progress)(i);
+        let base = obs_erased(&forms[0].1, s);
+        if let Ok((o, ..)) = &base {
+            *r.counters.entry(if o.is_some() { "accepted" } else { "rejected" }.into()).or_default() += 1;
+            distinct.insert(format!("{base:?}"));
+        }
+        for (fname, p) in &forms[1..] {
+            r.cases += 1;
+            r.validated += 1;
+            r.states += s.len() as u64 + 1;
+            r.transitions += 1;
+            let got = obs_erased(p, s);
+            if got != base {
+                mism(&mut r, "rec-erased", name, fname.to_string(), s, format!("{got:?}, with the plain handle {base:?}"));
+            }
+        }
+    }
+    r.distinct_outcomes = distinct.len() as u64;
+    r.desc = format!("R = '(' R ')' | 'a' | '[' R ']' with the recursion handle wrapped inside its own definition ({} forms: boxed(), Rc, Box, boxed twice, a declared handle boxed, two declared parsers through boxed handles) vs the plain handle: same outputs, errors and check() on all {} strings over \"()[]a\" of length <= {}", forms.len() - 1, ins.len(), len);
+    r
+}
+
+// =================================================================================================
 // C12: guarded recursive templates against their unrolling
 // =================================================================================================
 
@@ -805,7 +960,7 @@ pub fn run_depth(name: &str, depths: &[usize], cx: &ShardCtx) -> UnitResult {
     type EP<'a> = extra::Err<chumsky::error::Cheap>;
     let mut case = 0usize;
     for &d in depths {
-        for form in 0..6u8 {
+        for form in 0..10u8 {
             let me = case % cx.nshards == cx.shard;
             case += 1;
             if !me || cx.skip.contains(&(case - 1)) {
@@ -828,6 +983,36 @@ pub fn run_depth(name: &str, depths: &[usize], cx: &ShardCtx) -> UnitResult {
                     let mut p = Recursive::declare();
                     p.define(p.clone().delimited_by(just::<_, &str, EP>('('), just(')')).map(|n: usize| n + 1).or(just('a').to(0usize)));
                     (p.parse(ok_in.as_str()).into_output(), p.check(ok_in.as_str()).has_output(), d == 0 || p.parse(bad_in.as_str()).has_errors(), d == 0 || p.check(bad_in.as_str()).has_errors())
+                }
+                6 => {
+                    // the self-reference is used through a type-erased handle (`handle.boxed()`): the recursion goes through
+                    // the handle's dynamically dispatched entry points
+                    let p = recursive::<&str, usize, EP, _, _>(|r| {
+                        let r = r.boxed();
+                        r.delimited_by(just('('), just(')')).map(|n: usize| n + 1).or(just('a').to(0usize))
+                    });
+                    (p.parse(ok_in.as_str()).into_output(), p.check(ok_in.as_str()).has_output(), d == 0 || p.parse(bad_in.as_str()).has_errors(), d == 0 || p.check(bad_in.as_str()).has_errors())
+                }
+                7 => {
+                    let mut p = Recursive::declare();
+                    p.define(p.clone().boxed().delimited_by(just::<_, &str, EP>('('), just(')')).map(|n: usize| n + 1).or(just('a').to(0usize)));
+                    (p.parse(ok_in.as_str()).into_output(), p.check(ok_in.as_str()).has_output(), d == 0 || p.parse(bad_in.as_str()).has_errors(), d == 0 || p.check(bad_in.as_str()).has_errors())
+                }
+                8 => {
+                    // the self-reference behind an Rc (the wrapper impls forward by value)
+                    let p = recursive::<&str, usize, EP, _, _>(|r| {
+                        let r = std::rc::Rc::new(r);
+                        r.delimited_by(just('('), just(')')).map(|n: usize| n + 1).or(just('a').to(0usize))
+                    });
+                    (p.parse(ok_in.as_str()).into_output(), p.check(ok_in.as_str()).has_output(), d == 0 || p.parse(bad_in.as_str()).has_errors(), d == 0 || p.check(bad_in.as_str()).has_errors())
+                }
+                9 => {
+                    // two mutually recursive declared parsers, each referring to the other through a boxed handle
+                    let mut a = Recursive::declare();
+                    let mut b = Recursive::declare();
+                    a.define(b.clone().boxed().delimited_by(just::<_, &str, EP>('('), just(')')).map(|n: usize| n + 1).or(just('a').to(0usize)));
+                    b.define(a.clone().boxed().map(|n: usize| n));
+                    (a.parse(ok_in.as_str()).into_output(), a.check(ok_in.as_str()).has_output(), d == 0 || a.parse(bad_in.as_str()).has_errors(), d == 0 || a.check(bad_in.as_str()).has_errors())
                 }
                 2 => {
                     // Pratt: prefix nesting  ----a
@@ -859,7 +1044,7 @@ pub fn run_depth(name: &str, depths: &[usize], cx: &ShardCtx) -> UnitResult {
                 }
             }))
             .map_err(|e| cvh::e1::panic_msg(e));
-            let fname = ["recursive()", "declare/define", "pratt prefix", "pratt right infix", "pratt prefix power 0", "pratt right infix power 0"][form as usize];
+            let fname = ["recursive()", "declare/define", "pratt prefix", "pratt right infix", "pratt prefix power 0", "pratt right infix power 0", "recursive() with a boxed self-reference", "declare/define with a boxed self-reference", "recursive() with the self-reference behind an Rc", "mutually recursive declared parsers through boxed handles"][form as usize];
             match res {
                 Err(m) => mism(&mut r, "rec-depth", name, format!("{fname} depth {d}"), "", format!("panic: {m}")),
                 Ok((o, c, be, bce)) => {
@@ -876,7 +1061,7 @@ pub fn run_depth(name: &str, depths: &[usize], cx: &ShardCtx) -> UnitResult {
         }
     }
     r.distinct_outcomes = r.cases;
-    r.desc = format!("nesting depth points {:?} x (recursive(), declare/define, Pratt prefix and right-assoc infix with binding powers 1 and 0): parse and check of the well-nested input return the depth, the ill-nested input is rejected, no stack overflow (an overflow kills the worker and is attributed to the case). These are points, not an enumeration of all depths", depths);
+    r.desc = format!("nesting depth points {:?} x (recursive(), declare/define, the same with the self-reference boxed / behind an Rc / mutually through boxed handles, Pratt prefix and right-assoc infix with binding powers 1 and 0): parse and check of the well-nested input return the depth, the ill-nested input is rejected, no stack overflow (an overflow kills the worker and is attributed to the case). These are points, not an enumeration of all depths", depths);
     r
 }
 
@@ -1009,6 +1194,8 @@ pub fn run(unit: &str, tier: Tier, cx: &ShardCtx) -> UnitResult {
     match unit {
         "leftrec" => run_leftrec(unit, if q { 7 } else { 9 }, cx),
         "memo-shared-by-clone" => run_shared_memo(unit, if q { 6 } else { 8 }, cx),
+        "rec-erased-handles" => run_erased(unit, if q { 7 } else { 8 }, cx),
+        "memo-context-errors" => run_ctx_memo(unit, if q { 6 } else { 7 }, if q { 11 } else { 13 }, cx),
         "rec-templates" => run_templates(unit, if q { 8 } else { 10 }, cx),
         "rec-lifecycle" => run_lifecycle(unit, if q { 4 } else { 5 }, cx),
         "rec-depth" => {
